@@ -626,10 +626,13 @@ def json_to_pagexml_text_region(json_doc: dict) -> pdm.PageXMLTextRegion:
     text_regions = [json_to_pagexml_text_region(text_region) for text_region in
                     get_json_element(json_doc, 'text_regions', default_value=[])]
     lines = [json_to_pagexml_line(line) for line in get_json_element(json_doc, 'lines', default_value=[])]
+    table_regions = [json_to_pagexml_table_region(table_region) for table_region in
+                     get_json_element(json_doc, 'table_regions', default_value=[])]
     reading_order, reading_order_attributes, orientation = json_to_region_metadata(json_doc)
 
     text_region = pdm.PageXMLTextRegion(doc_id=json_doc['id'], doc_type=json_doc['type'], metadata=json_doc['metadata'],
                                         coords=json_to_coords(json_doc), text_regions=text_regions, lines=lines,
+                                        table_regions=table_regions,
                                         text=get_json_element(json_doc, 'text'),
                                         orientation=orientation, reading_order=reading_order,
                                         reading_order_attributes=reading_order_attributes)
